@@ -249,6 +249,39 @@ theorem C19_width (width : Int) (indent s : Str) :
     · exact h
     · exact absurd hq (h3 e he (by omega) q)
 
+/-- The width clause in its strongest form: a yielded line longer than `width` contains no
+white space behind the indent AT ALL (not only none within the width) — it could not have been
+broken anywhere: the line ends at the first white space after the over-long word. -/
+theorem C19_width_no_break_point (width : Int) (indent s : Str) :
+    ∀ l ∈ iterLines width indent s, (l.length : Int) > width →
+      ∀ q, indent.length < q → ¬ WsAt l q := by
+  refine iterLines_induct (w := width) (ind := indent)
+    (fun _ L => ∀ l ∈ L, (l.length : Int) > width → ∀ q, indent.length < q → ¬ WsAt l q) ?_ ?_ ?_ s
+  · intro s hs l hl hlen
+    split at hl
+    · simp at hl
+    · simp only [List.mem_singleton] at hl; subst hl; exact absurd hlen hs
+  · intro s _ hb l hl _ q hq1 hq3
+    simp only [List.mem_singleton] at hl; subst hl
+    have := findBreak_none hb q hq3
+    omega
+  · intro s p _ hb ih l hl hlen q hq1 hq3
+    simp only [List.mem_cons] at hl
+    rcases hl with hl | hl
+    · subst hl
+      obtain ⟨_, hws, h3, _⟩ := findBreak_some hb
+      have hplt := hws.lt
+      have hlp : (s.take p).length = p := by simp only [List.length_take]; omega
+      obtain ⟨hqp, hqs⟩ := WsAt_take.1 hq3
+      have := h3 q hq1 hqp hqs
+      omega
+    · exact ih l hl hlen q hq1 hq3
+
+/-- an over-long word followed by two more words: the long word gets a line of its own -/
+theorem C19_width_no_break_point_nonvacuous :
+    iterLines 3 "  ".toList "aaaa b c".toList = ["aaaa".toList, "  b".toList, "  c".toList] := by
+  decide +kernel
+
 /-- both kinds of line occur: an over-long line without a legal break (the only white space of
 `aa bb` is inside the region `q ≤ |indent|`), and a line with a legal break inside the width -/
 theorem C19_width_nonvacuous :
